@@ -826,88 +826,104 @@ def only_none_residue(l0, s):
 # concurrency: asyncio.gather of generate_async on one instance
 
 
-def run_concurrent(config, kw, reqs, lats, starts):
-    """reqs: list of (messages, llm_params or None). lats[(i,k)] = latency of the k-th LLM call of task i."""
+def run_concurrent(config, kw, workers, lats, starts):
+    """workers: list of worker loops; a worker = list of (messages, llm_params or None) served one after
+    the other by ONE task; the workers run concurrently (asyncio.gather).
+    lats[((w, j), k)] = latency of the k-th LLM call of request j of worker w."""
     ns = impl()
     asyncio = ns["asyncio"]
     app, llm, h = mk_app(config, kw=kw)
     h.lat = dict(lats)
     configured = ns["snapshot"](llm)
+    replies = {}
+    idle = []
 
-    async def one(i):
-        ns["TAG"].set(i)
-        if starts[i]:
-            await asyncio.sleep(starts[i])
-        msgs, lp = reqs[i]
-        opts = {"llm_params": lp} if lp is not None else None
-        r = await app.generate_async(messages=json.loads(json.dumps(msgs)), options=opts)
-        return r
+    async def one(w):
+        if starts[w]:
+            await asyncio.sleep(starts[w])
+        for j, (msgs, lp) in enumerate(workers[w]):
+            ns["TAG"].set((w, j))
+            opts = {"llm_params": lp} if lp is not None else None
+            try:
+                r = await app.generate_async(messages=json.loads(json.dumps(msgs)), options=opts)
+                replies[(w, j)] = canon_reply(r) if isinstance(r, dict) else [canon_reply(m) for m in r.response]
+            except Exception as e:
+                replies[(w, j)] = ["error", repr(e)[:200]]
 
     async def main():
-        return await asyncio.gather(*[one(i) for i in range(len(reqs))], return_exceptions=True)
+        return await asyncio.gather(*[one(w) for w in range(len(workers))])
 
-    out = asyncio.run(main())
-    replies = []
-    for r in out:
-        if isinstance(r, Exception):
-            replies.append(["error", repr(r)[:200]])
-        elif isinstance(r, dict):
-            replies.append(canon_reply(r))
-        else:
-            replies.append([canon_reply(m) for m in r.response])
-    return {"steps": list(h.steps), "calls": list(h.calls), "ctx": list(h.ctx), "replies": replies,
+    asyncio.run(main())
+    return {"steps": list(h.steps), "calls": list(h.calls), "replies": replies,
             "configured": configured, "final": ns["snapshot"](llm)}
 
 
 def work_conc(args):
-    config, kw, reqs, lats, starts = args
-    ns = impl()
-    shared = run_concurrent(config, kw, reqs, lats, starts)
-    alone = [run_concurrent(config, kw, [reqs[i]], {(0, k): 0 for k in range(4)}, [0]) for i in range(len(reqs))]
-    res = {"findings": [], "term": None, "overlap": False, "anomaly": False}
+    config, kw, workers, lats, starts = args
+    shared = run_concurrent(config, kw, workers, lats, starts)
+    alone = {(w, j): run_concurrent(config, kw, [[req]], {}, [0]) for w, wk in enumerate(workers) for j, req in enumerate(wk)}
+    res = {"findings": [], "term": None, "overlap": False, "anomaly": False, "ctx_term": None,
+           "multi": any(len(wk) > 1 for wk in workers)}
     cfgd = shared["configured"]
-    # trace for the model
+    # trace for Svc.Params: the task of the model is the worker
     log = []
     for tag, kind, data, snap in shared["steps"]:
         op = {"enter": "OEnter " + coq_pmap({k: v for k, v in (data or {}).items()}) if kind == "enter" else None, "call": "OCall", "exit": "OExit"}[kind]
-        log.append(f"({tag}%nat, {op}, {coq_llm(snap)})")
+        log.append(f"({tag[0]}%nat, {op}, {coq_llm(snap)})")
     res["term"] = f"({coq_llm(cfgd)}, {C.coq_list(log)})"
-    # overlap: another task's step inside a window
+    # trace for Svc.Ctx: one context per worker, forked from the root before anything runs
+    codes = {}
+
+    def code(o):
+        return "None" if o is None else "(Some %d)" % codes.setdefault(json.dumps(o, sort_keys=True), len(codes))
+
+    clog = ["LFork 0 %d" % (w + 1) for w in range(len(workers))]
+    for c in shared["calls"]:
+        w, j = c["tag"]
+        lp = workers[w][j][1]
+        clog.append("LReq %d %s %s" % (w + 1, code(norm_options({"llm_params": lp}) if lp is not None else None), code(c["ctx"]["options"])))
+    res["ctx_term"] = C.coq_list(["(" + x + ")" for x in clog])
+    # overlap: another worker's step inside a window
     open_by = {}
     for tag, kind, data, snap in shared["steps"]:
+        t = tag[0]
         if kind == "enter":
-            if any(t != tag for t in open_by):
+            if any(x != t for x in open_by):
                 res["overlap"] = True
-            open_by[tag] = open_by.get(tag, 0) + 1
+            open_by[t] = open_by.get(t, 0) + 1
         elif kind == "exit":
-            open_by[tag] -= 1
-            if not open_by[tag]:
-                del open_by[tag]
-        elif any(t != tag for t in open_by):
+            open_by[t] -= 1
+            if not open_by[t]:
+                del open_by[t]
+        elif any(x != t for x in open_by):
             res["overlap"] = True
-    payload = {"kind": "concurrent", "config": config, "model_kwargs": kw, "requests": reqs, "latencies": [[list(k), v] for k, v in lats.items()], "starts": starts}
+    payload = {"kind": "concurrent", "config": config, "model_kwargs": kw, "workers": workers,
+               "latencies": [[[list(k[0]), k[1]], v] for k, v in lats.items()], "starts": starts}
     bad = []
-    for i in range(len(reqs)):
-        sc = [c for c in shared["calls"] if c["tag"] == i]
-        ac = alone[i]["calls"]
+    for (w, j), al in alone.items():
+        sc = [c for c in shared["calls"] if c["tag"] == (w, j)]
+        ac = al["calls"]
+        who = "worker %d request %d" % (w, j)
         if [c["prompt"] for c in sc] != [c["prompt"] for c in ac]:
-            res["findings"].append((SIG_CACHE, "task %d: LLM prompts under concurrency differ from the run alone" % i, dict(payload, task=i)))
-        if shared["replies"][i] != alone[i]["replies"][0]:
-            res["findings"].append((SIG_CACHE, "task %d: reply under concurrency differs from the run alone" % i, dict(payload, task=i, shared=shared["replies"][i], alone=alone[i]["replies"][0])))
+            res["findings"].append((SIG_CACHE, who + ": LLM prompts under concurrency differ from the run alone", dict(payload, task=[w, j])))
+        if shared["replies"].get((w, j)) != al["replies"].get((0, 0)):
+            res["findings"].append((SIG_CACHE, who + ": reply under concurrency differs from the run alone",
+                                    dict(payload, task=[w, j], shared=shared["replies"].get((w, j)), alone=al["replies"].get((0, 0)))))
+        lp = workers[w][j][1]
+        want = norm_options({"llm_params": lp}) if lp is not None else None
         for a, b in zip(sc, ac):
-            if a["params"] != b["params"]:
-                bad.append("task %d ran an LLM call with %s; alone it runs with %s" % (i, a["params"], b["params"]))
-    # contextvars at call time are the task's own
-    for tag, lp, raw in shared["ctx"]:
-        want = reqs[tag][1]
-        if (lp or None) != (want or None) or raw != reqs[tag][0]:
-            res["findings"].append((SIG_CTX, "task %d saw generation options / raw request of another task" % tag, dict(payload, task=tag, seen=[lp, raw])))
+            # the per-request context at call time must be the request's own, whatever the interleaving
+            if a["ctx"] != b["ctx"] or a["ctx"]["options"] != want:
+                res["findings"].append((SIG_CTX, who + " (options %s): its LLM call saw generation options %s / raw request %s"
+                                        % (lp, a["ctx"]["options"], a["ctx"]["raw"]), dict(payload, task=[w, j], seen=a["ctx"], alone=b["ctx"])))
+            elif a["params"] != b["params"]:
+                bad.append(who + " ran an LLM call with %s; alone it runs with %s" % (a["params"], b["params"]))
     if shared["final"] != cfgd:
         bad.append("after all tasks finished the LLM parameters are %s, configured %s" % (shared["final"], cfgd))
     if bad:
         res["anomaly"] = True
         if res["overlap"]:
-            res["findings"].append((SIG_RACE, bad[0], dict(payload, observed=bad, steps=[[t, k, d, s] for t, k, d, s in shared["steps"]])))
+            res["findings"].append((SIG_RACE, bad[0], dict(payload, observed=bad, steps=[[list(t), k, d, s] for t, k, d, s in shared["steps"]])))
         elif only_none_residue(cfgd, shared["final"]) and all("after all tasks" in b for b in bad):
             res["findings"].append((SIG_KWNONE, bad[0], dict(payload, observed=bad)))
         else:
@@ -920,18 +936,33 @@ def gen_conc(rng, n):
     for _ in range(n):
         config = rng.choice(["general", "general", "selfcheck"])
         kw = rng.random() < 0.3
-        nt = rng.choice([2, 2, 3])
-        reqs = []
-        for i in range(nt):
-            lp = rng.choice([None, {"temperature": rng.choice([0.2, 0.9])}, {"temperature": 0.9, "max_tokens": 7}])
-            if kw and rng.random() < 0.5:
-                lp = dict(lp or {}, top_p=rng.choice([0.1, 0.7]))
-            reqs.append(([u(rng.choice(["x", "y", "hello", "a:b"]) + str(i))], lp))
-        serial = rng.random() < 0.25
-        lats = {(i, k): (0 if serial else rng.choice([0, 0.004, 0.008, 0.016])) for i in range(nt) for k in range(3)}
-        starts = [i * 0.25 if serial else rng.choice([0, 0, 0.004, 0.008]) for i in range(nt)]
-        out.append((config, kw, reqs, lats, starts))
+        nw = rng.choice([1, 2, 2, 3])
+        workers = []
+        for w in range(nw):
+            wk = []
+            for j in range(rng.choice([1, 1, 2, 3]) if nw > 1 else rng.choice([2, 3])):
+                lp = rng.choice([None, None, {"temperature": rng.choice([0.2, 0.9])}, {"temperature": 0.9, "max_tokens": 7}])
+                if kw and rng.random() < 0.5:
+                    lp = dict(lp or {}, top_p=rng.choice([0.1, 0.7]))
+                wk.append(([u(rng.choice(["x", "y", "hello", "a:b"]) + "%d%d" % (w, j))], lp))
+            workers.append(wk)
+        serial = rng.random() < 0.3
+        lats = {((w, j), k): (0 if serial else rng.choice([0, 0.004, 0.008, 0.016]))
+                for w, wk in enumerate(workers) for j in range(len(wk)) for k in range(3)}
+        starts = [w * 0.35 if serial else rng.choice([0, 0, 0.004, 0.008]) for w in range(nw)]
+        out.append((config, kw, workers, lats, starts))
     return out
+
+
+def conc_job_of(r):
+    """A stored concurrent case (current `workers` format, or the older one-request-per-task format)."""
+    if "workers" in r:
+        workers = [[(m, lp) for m, lp in wk] for wk in r["workers"]]
+        lats = {((k[0][0], k[0][1]), k[1]): v for k, v in r["latencies"]}
+    else:
+        workers = [[(m, lp)] for m, lp in r["requests"]]
+        lats = {((k[0], 0), k[1]): v for k, v in r["latencies"]}
+    return (r["config"], r["model_kwargs"], workers, lats, r["starts"])
 
 
 # ---------------------------------------------------------------------------------------
@@ -1004,8 +1035,7 @@ def run(tier, seed, replay=None):
                          "opts": r.get("opts"), "mode": r.get("mode", "tasks"),
                          "only_sched": bool(replay) and bool(r.get("sched"))})
         elif r.get("kind") == "concurrent":
-            conc_jobs.append((r["config"], r["model_kwargs"], [(m, lp) for m, lp in r["requests"]],
-                              {tuple(k): v for k, v in r["latencies"]}, r["starts"]))
+            conc_jobs.append(conc_job_of(r))
     n_corpus = len(sets) + len(conc_jobs)
 
     _t(out, 'build+audit done')
@@ -1150,7 +1180,9 @@ def run(tier, seed, replay=None):
     cres = _pool_map(work_conc, conc_jobs)
     _t(out, 'concurrent runs done')
     conc_terms = [r["term"] for r in cres]
-    conc_stats = {"runs": len(cres), "overlapping": sum(1 for r in cres if r["overlap"]), "with_anomaly": sum(1 for r in cres if r["anomaly"])}
+    conc_ctx_terms = [r["ctx_term"] for r in cres]
+    conc_stats = {"runs": len(cres), "overlapping": sum(1 for r in cres if r["overlap"]), "with_anomaly": sum(1 for r in cres if r["anomaly"]),
+                  "with_worker_loops": sum(1 for r in cres if r["multi"])}
     for r in cres:
         for sig, what, payload in r["findings"][:10]:
             out.findings.append(C.Finding(sig, what, payload))
@@ -1163,7 +1195,17 @@ def run(tier, seed, replay=None):
             if bad:
                 t, j = min(bad, key=lambda c: len(c[0]))
                 out.add_broken("correspondence:C15-concurrent",
-                               f"{len(bad)} logged enter/call/exit traces of concurrent generate_async are not traces of Svc.Params; smallest: requests={j[2]} latencies={sorted(j[3].items())} starts={j[4]} trace={t[:1500]}")
+                               f"{len(bad)} logged enter/call/exit traces of concurrent generate_async are not traces of Svc.Params; smallest: workers={j[2]} latencies={sorted(j[3].items())} starts={j[4]} trace={t[:1500]}")
+    if okm and conc_ctx_terms:
+        bools, err = C.run_cases(PID + "_concctx", CTX_PRE, conc_ctx_terms, "check_ctx", shard=400)
+        if err:
+            out.add_broken("correspondence:C15-request-context-concurrent(coqc)", err)
+        else:
+            bad = [(t, j) for ok, t, j in zip(bools, conc_ctx_terms, conc_jobs) if not ok]
+            if bad:
+                t, j = min(bad, key=lambda c: len(c[0]))
+                out.add_broken("correspondence:C15-request-context-concurrent",
+                               f"{len(bad)} concurrent runs: generation options seen at the LLM calls are not the ones Svc.Ctx predicts; smallest: workers={j[2]} trace={t[:800]}")
 
     _t(out, 'concurrent traces checked in Coq')
     out.coverage.update({
